@@ -38,6 +38,8 @@ type SrvWorld struct {
 	done       bool
 	Submitted  map[string][]byte // "actor/op" -> payload
 	closedSrv  bool
+	lockLeakReported bool
+	finalTries int
 	lossFree   bool
 }
 
@@ -217,19 +219,19 @@ func (w *SrvWorld) eventHandler() turn.EventHandler {
 			k.Yield("cb:OnAllocationError", addrStr(src))
 		},
 		OnPermissionCreated: func(src, dst net.Addr, proto, user, realm string, relay net.Addr, peer net.IP) {
-			m.Event("perm-created", addrStr(src)+"|"+peer.String())
+			m.Event("perm-created", addrStr(src)+"|"+addrStr(relay)+"|"+peer.String())
 			k.Yield("cb:OnPermissionCreated", addrStr(src)+"|"+peer.String())
 		},
 		OnPermissionDeleted: func(src, dst net.Addr, proto, user, realm string, relay net.Addr, peer net.IP) {
-			m.Event("perm-deleted", addrStr(src)+"|"+peer.String())
+			m.Event("perm-deleted", addrStr(src)+"|"+addrStr(relay)+"|"+peer.String())
 			k.Yield("cb:OnPermissionDeleted", addrStr(src)+"|"+peer.String())
 		},
 		OnChannelCreated: func(src, dst net.Addr, proto, user, realm string, relay, peer net.Addr, n uint16) {
-			m.Event("chan-created", fmt.Sprintf("%s|%s|%d", addrStr(src), addrStr(peer), n))
+			m.Event("chan-created", fmt.Sprintf("%s|%s|%s|%d", addrStr(src), addrStr(relay), addrStr(peer), n))
 			k.Yield("cb:OnChannelCreated", addrStr(src))
 		},
 		OnChannelDeleted: func(src, dst net.Addr, proto, user, realm string, relay, peer net.Addr, n uint16) {
-			m.Event("chan-deleted", fmt.Sprintf("%s|%s|%d", addrStr(src), addrStr(peer), n))
+			m.Event("chan-deleted", fmt.Sprintf("%s|%s|%s|%d", addrStr(src), addrStr(relay), addrStr(peer), n))
 			k.Yield("cb:OnChannelDeleted", addrStr(src))
 		},
 	}
@@ -538,7 +540,19 @@ func (w *SrvWorld) finish() {
 		ps := p.sock
 		w.lib("close-peer", func() { _ = ps.Close() })
 	}
-	w.K.At(w.K.Now()+5e9, "final", func() { w.done = true })
+	w.K.At(w.K.Now()+5e9, "final", w.final)
+}
+
+// final ends the run once no goroutine is parked any more (a stall may outlast the plan).
+func (w *SrvWorld) final() {
+	if w.K.Parked() > 0 || w.LibPending() > 0 {
+		w.finalTries++
+		if w.finalTries < 2000 {
+			w.K.At(w.K.Now()+30e9, "final", w.final)
+			return
+		}
+	}
+	w.done = true
 }
 
 func (w *SrvWorld) allocCount() int {
@@ -559,6 +573,19 @@ func (w *SrvWorld) allocCount() int {
 // Idle is the driver's idle hook.
 func (w *SrvWorld) Idle(now int64) {
 	if w.LibPending() > 0 {
+		return
+	}
+	if held, _ := lockState(); len(held) > 0 {
+		// every handler has returned and nobody is parked, yet a lock is held
+		if !w.lockLeakReported {
+			w.lockLeakReported = true
+			for _, h := range held {
+				for _, pr := range []string{"C18", "C16"} {
+					w.K.Violate(&Violation{Property: pr, Class: "lock-held-at-idle", Key: kv("site", h), Detail: "at an idle point (all handlers returned, nobody parked) a lock is still held, acquired at " + h})
+				}
+			}
+		}
+		w.Mon.Idle(now, -1, w.lossFree)
 		return
 	}
 	w.Mon.Idle(now, w.allocCount(), w.lossFree)
